@@ -75,6 +75,10 @@ def coq_cfg(spec, peer):
 # ---------------------------------------------------------------------------------------------
 # the real parser
 # ---------------------------------------------------------------------------------------------
+class SpinningReader(Exception):
+    """the code under test reads an ended source over and over (it would spin for ever)"""
+
+
 class CountingIter:
     def __init__(self, chunks):
         self.chunks = list(chunks)
@@ -211,9 +215,20 @@ def do_call(body, call):
         return [1] + vlib.enc_bytes(body.readline(size))
     if kind == "readlines":
         return [2] + vlib.enc_list(vlib.enc_bytes, body.readlines())
-    if kind == "next":
+    if kind in ("next", "iternext"):
+        # "iternext": through iter(wsgi.input), the way a `for` loop does it (one iterator object per body, obtained at the first
+        # such call) - a file object is its own iterator, so both spellings are the same call of the model
+        src = body
+        if kind == "iternext":
+            src = getattr(body, "_gv_iter", None)
+            if src is None:
+                src = iter(body)
+                try:
+                    body._gv_iter = src
+                except AttributeError:
+                    pass
         try:
-            return [1] + vlib.enc_bytes(next(body))
+            return [1] + vlib.enc_bytes(next(src))
         except StopIteration:
             return [3]
     raise ValueError(kind)
@@ -229,6 +244,21 @@ def run_impl(spec, chunks, progs, peer=DEFAULT_PEER, structured=None, sock=False
     out = []
     with ExtRecorder() as rec:
         parser = RequestParser(cfg, it, peer)
+        # a reader that asks an ended source again and again will never get anything else: stop it (the property checks run
+        # in-process; without this a loop that does not test for end of stream would only be ended by the watchdog)
+        _chunk = parser.unreader.chunk
+        _empty = [0]
+
+        def chunk_guard():
+            d = _chunk()
+            if d:
+                _empty[0] = 0
+            else:
+                _empty[0] += 1
+                if _empty[0] > 5000:
+                    raise SpinningReader("the parser read its ended source %d times in a row" % _empty[0])
+            return d
+        parser.unreader.chunk = chunk_guard
         k = 0
         prev = None          # (req, RecordingBody)
         while True:
@@ -314,7 +344,7 @@ def run_impl(spec, chunks, progs, peer=DEFAULT_PEER, structured=None, sock=False
 def coq_call(call):
     kind, size = call
     sz = "None" if size is None else "(Some %s)" % vlib.coq_Z(size)
-    return {"read": "Read " + sz, "readline": "Readline " + sz, "readlines": "Readlines", "next": "Next"}[kind]
+    return {"read": "Read " + sz, "readline": "Readline " + sz, "readlines": "Readlines", "next": "Next", "iternext": "Next"}[kind]
 
 
 def coq_progs(progs):
@@ -502,7 +532,7 @@ def gen_prog(rng, body_len, maxcalls=6):
     n = rng.choice([0, 0, 1, 1, 2, 3, maxcalls])
     prog = []
     for _ in range(n):
-        kind = rng.choice(["read", "read", "readline", "readline", "readlines", "next"])
+        kind = rng.choice(["read", "read", "readline", "readline", "readlines", "next", "iternext"])
         size = rng.choice(SIZES + [body_len, body_len + 1, max(0, body_len - 1)])
         prog.append((kind, size if kind in ("read", "readline") else None))
     return prog
